@@ -31,6 +31,8 @@ CHECKS = {
    text="Two or three concurrent client threads on overlapping configurations of one manager, every ordered pair over 6 call kinds, with cancel events; every handler releases early and is gated so the script can deliver each reply at any position of the history, including after its call returned or was cancelled; oracle: every reply observed by a quorum function or returned carries the observer's token and the node id it is filed under, at most once per node, nothing after return, one message id per call."),
  "C06": dict(cat="model_checking", ref="5.6", tech="stateless model checking with exhaustive enumeration of per-node skip subsets and node states; payload equality per server and untimed 'returns without waiting' oracle at quiescence",
    text="Every skip subset of the per-node function for n<=3 on 9 per-node call variants and 6 plain ones with thresholds targeted / targeted+1: each server must receive exactly f(request, i) once, skipped servers nothing, and completion and the Incomplete counts range over targeted nodes only. One-way calls x send-waiting on/off x {idle, blocked handlers, endpoints down, window full}: the call has returned at the first quiescent point with every handler still running, and with no-send-waiting even when its own message cannot be written."),
+ "C07": dict(cat="fault_enumeration", ref="5.7", tech="stateless model checking with fault enumeration: every failing subset x failure kind, the fault placed before the call and as a free-running thread at every instant within the deviation bound",
+   text="n in {2,3} x failing subsets x {down at creation, crash, reset, crash+restart, handler error with 5 status codes} x thresholds x healthy replies before/after the fault, with the fault thread scheduled at every point between visible operations of the library within the deviation bound; back-off timers are fired to a horizon before the progress oracle; oracle: success iff the healthy replies satisfy the quorum function, Incomplete names each failing node exactly once with the handler's status or an unavailable-type error and consistent counts, the quorum function never sees a failed node, no call is left waiting for a node whose connection broke."),
 }
 
 NOT_YET = {}
